@@ -134,30 +134,20 @@ def case_run(case):
             return 'accepted-then-step-fails'
         props = []
 
-        def lim_of(a):
-            mag = z3.If(a >= 0, a, -a)
-            lim = TOL * mag
-            lim = z3.If(lim >= TOL, lim, TOL)
-            return z3.If(lim >= symx.rat(2e-4), lim, symx.rat(2e-4))
+        def zabs(e):
+            return z3.If(e >= 0, e, -e)
+
+        # the property, literally: no non-excluded variable moves by more than the tolerance - relative to its value, or absolutely; two values that are
+        # both near zero (< 1e-4, the documented rule) count as equal.  The relative bound is taken on the larger of the two magnitudes and 1e-9 is added
+        # for the last binary digit of the tolerance literal: anything a correct implementation accepts satisfies this.
+        NEAR = symx.rat(1e-4)
         for v, a in x0.items():
-            if v not in gain:
-                continue
             b = symx.lift(es.TimeSeries[v][1])
-            diff = z3.If(b - a >= 0, b - a, a - b)
-            allowed = symx.rat(1e-6)
-            for stock, c in gain[v].items():
-                if stock == '@self':
-                    props.append(diff <= symx.rat(1e-6) + symx.rat(abs(c)) * lim_of(a))
-                elif stock == '@iter':
-                    ca, tau = c
-                    for val in (a, b):
-                        mag = z3.If(val >= 0, val, -val)
-                        e = symx.rat(tau) * mag / (1 - symx.rat(tau))
-                        e = z3.If(e >= symx.rat(min(tau, 1e-3)), e, symx.rat(min(tau, 1e-3)))
-                        allowed = allowed + e / (1 - symx.rat(ca))
-                else:
-                    allowed = allowed + symx.rat(abs(c)) * lim_of(x0[stock])
-            props.append(diff <= allowed)
+            diff = zabs(b - a)
+            big = z3.If(zabs(a) >= zabs(b), zabs(a), zabs(b))
+            rel = TOL * big
+            lim = z3.If(rel >= TOL, rel, TOL)
+            props.append(z3.Or(diff <= lim * (1 + symx.rat(1e-9)), z3.And(zabs(a) < NEAR, zabs(b) < NEAR)))
         r, m = D.holds(z3.And(props))
         if r == 'sat' and out['viol'] is None:
             vals = {n: str(m.eval(v, model_completion=True)) for n, v in syms.items()}
@@ -225,15 +215,11 @@ es.TimeSeries['D'] = [path[0]] * 4
 es.TimeSeries['k'] = [es.TimeSeries['k'][0]] * len(es.TimeSeries['k'])
 es.SolveStep(1)
 for v, a in x0.items():
-    if v not in gain: continue
     b = es.TimeSeries[v][1]
-    lim = 1e-6 + sum(abs(c) * max(tol * abs(x0[st]), tol, 2e-4) for st, c in gain[v].items() if not st.startswith('@'))
-    if '@iter' in gain[v]:
-        ca, tau = gain[v]['@iter']
-        lim += sum(max(tau * abs(val) / (1 - tau), min(tau, 1e-3)) / (1 - ca) for val in (a, b))
-    if '@self' in gain[v]: lim = min(lim, 1e-6 + abs(gain[v]['@self']) * max(tol * abs(a), tol, 2e-4))
-    print(v, 'installed k=0 value', a, 'next period', b, 'allowed change', lim)
-    if abs(b - a) > lim * (1 + 1e-9): bad = True
+    lim = max(tol * max(abs(a), abs(b)), tol) * (1 + 1e-9)
+    near = abs(a) < 1e-4 and abs(b) < 1e-4
+    print(v, 'installed k=0 value', a, 'next period', b, 'allowed change', lim, '(both near zero)' if near else '')
+    if abs(b - a) > lim * (1 + 1e-12) and not near: bad = True
 sys.exit(1 if bad else 0)
 '''
 
@@ -247,10 +233,9 @@ def run(tier, seed):
     cs = cases(tier)
     chk.bounds = {'cases': '%d: blocks %r x search horizon x tolerance {1e-4, 1e-2}' % (len(cs), sorted(BLOCKS)),
                   'numeric domain': 'k=0 values of every stock/lag and a MOVING exogenous path (4 symbolic values) in [-2000, 2000], both signs',
-                  'post': 'on acceptance |v(1)-v(0)| <= sum_stocks |c| * max(tol*|stock(0)|, tol, 2e-4) + 1e-6 for every non-excluded variable (c = one-step gain of the block); otherwise NoEquilibriumError/ValueError; '
+                  'post': 'on acceptance |v(1)-v(0)| <= max(tol*max(|v(0)|,|v(1)|), tol) for every non-excluded variable, or both values below 1e-4 in magnitude (the property, literally); otherwise NoEquilibriumError/ValueError; '
                           'equations, parser lists, exogenous series, horizon and solver attributes unchanged'}
-    chk.assumptions = ['slack mirrors the documented acceptance rule (absolute tolerance, relative tolerance, both-near-zero rule) and the block`s one-step gain, '
-                       'so a correct implementation cannot be flagged', 'TimeSeriesHolder.GenerateCSVtext stubbed to "" during E2 runs (log rendering, not the subject)']
+    chk.assumptions = ['the bound is the documented acceptance rule itself (absolute tolerance, relative tolerance on the larger magnitude, both-near-zero rule): no allowance for the block`s one-step gain', 'TimeSeriesHolder.GenerateCSVtext stubbed to "" during E2 runs (log rendering, not the subject)']
     chk.outside = ['search horizons above 4 (default 200)', 'non-affine systems']
     for st, o in pmap(case_run, cs):
         if st != 'ok':
